@@ -29,13 +29,133 @@ def topm_ok(got, truth, m):
     return None
 
 
+def _kwargs(c):
+    kw = dict(max_edits=c['k'], n_cpu=c['ncpu'], compression=c['comp'], max_returns=c['mr'])
+    if c['mode'] == 'hamming':
+        kw['custom_distance'] = 'hamming'
+    elif c['mode'] == 'custom':
+        kw['custom_distance'] = customs.make(c['which'])
+        kw['max_custom_distance'] = float('inf') if c['maxc'] is None else c['maxc']
+    return kw
+
+
+def _request(c):
+    if c['mode'] == 'default':
+        return ('api_brute_self_lev', [c['k'], c['seqs']])
+    if c['mode'] == 'hamming':
+        return ('api_brute_self_ham', [c['k'], c['seqs']])
+    return ('api_brute_self_custom', [c['which'], c['k'], None if c['maxc'] is None else Fraction(c['maxc']), c['seqs']])
+
+
+def _desc(c):
+    return dict(seqs=c['seqs'], n_cpu=c['ncpu'], compression=c['comp'], max_returns=c['mr'], max_edits=c['k'], mode=c['mode'],
+                custom=customs.NAMES[c['which']] if c['mode'] == 'custom' else None, which=c['which'] if c['mode'] == 'custom' else None,
+                max_custom_distance=c['maxc'])
+
+
+def _undesc(r):
+    which = r.get('which')
+    if which is None and r.get('custom') in customs.NAMES:
+        which = customs.NAMES.index(r['custom'])
+    return dict(seqs=list(r['seqs']), n=len(r['seqs']), ncpu=r['n_cpu'], comp=r['compression'], mr=r['max_returns'], k=r['max_edits'],
+                mode=r['mode'], which=which, maxc=r.get('max_custom_distance'))
+
+
+def histories(rng, count):
+    """Call HISTORIES: several kdtree calls made one after the other in ONE process on the same / overlapping sequences, with
+    different custom distance callables, max_custom_distance, modes and configurations; the first call single-process, later ones
+    with n_cpu = 1 and > 1 (forked workers inherit whatever the earlier calls left behind in the parent).  The property quantifies
+    over every single call, so each call of a history must equal the model for ITS OWN parameters, whatever was called before."""
+    out = []
+    for h in range(count):
+        base = repertoire(rng, rng.choice([5, 7, 9, 12, 16]))
+        order = rng.sample(range(6), 6)                      # every step of a history uses another distance callable
+        k0 = rng.choice([1, 2, 2, 3])
+        steps, prev_maxc = [], 'x'
+        for s in range(rng.randint(3, 6)):
+            if s < 2 or rng.random() < 0.7:
+                mode = 'custom'
+            else:
+                mode = rng.choice(['default', 'hamming'])
+            how = rng.random()
+            if s == 0 or how < 0.55:
+                seqs = list(base)                             # the same list again
+            elif how < 0.75:
+                seqs = list(base)
+                rng.shuffle(seqs)                             # same sequences at other indices
+            else:
+                seqs = rng.sample(base, max(2, (2 * len(base)) // 3)) + repertoire(rng, rng.randint(1, 4))
+                rng.shuffle(seqs)                             # overlapping list
+            maxc = rng.choice([m for m in (None, None, 1, 2, 3, 6) if m != prev_maxc or m is None])
+            prev_maxc = maxc
+            if s == 0:
+                ncpu = 1
+            elif s == 1:
+                ncpu = rng.choice([1, 2, 3, 4])
+            else:
+                ncpu = rng.choice([1, 2, 3, 5, 8, 16])
+            steps.append(dict(n=len(seqs), ncpu=ncpu, mode=mode, seqs=seqs, comp=rng.choice([1, 1, 1, 2, 5, 20]),
+                              mr=rng.choice([None, None, None, 1, 2]), k=k0 if rng.random() < 0.8 else rng.choice([1, 2, 3]),
+                              which=order[s], maxc=maxc))
+        if all(st['ncpu'] == 1 for st in steps[1:]):
+            steps[-1]['ncpu'] = rng.choice([2, 3, 4])
+        out.append(steps)
+    return out
+
+
+def judge(c, g, truth):
+    """None, or (site, message) when the result g = call_impl(kdtree ...) of case c breaks the property (truth: model)."""
+    if g[0] != 'ok':
+        return ('nn.kdtree[n_cpu>len]' if c['ncpu'] > c['n'] else 'nn.kdtree[config]',
+                'kdtree(%d sequences, n_cpu=%d, compression=%d, max_returns=%s, %s) raised %s' %
+                (c['n'], c['ncpu'], c['comp'], c['mr'], c['mode'], g[1]))
+    got = canon_triplets(g[1])
+    if c['mr'] is None:
+        if got != truth:
+            return ('nn.kdtree[config]', 'kdtree result depends on configuration: n_cpu=%d compression=%d mode=%s on %s: %s' %
+                    (c['ncpu'], c['comp'], c['mode'], c['seqs'], gens.diff_triplets(got, truth)))
+    else:
+        why = topm_ok(got, truth, c['mr'])
+        if why:
+            return ('nn.kdtree[max_returns]', 'max_returns=%d contract broken (%s) on %s' % (c['mr'], why, c['seqs']))
+    return None
+
+
+def run_histories(ctx, nn, hists):
+    """Runs every history step by step in this process; reports the first broken step of a history with the calls before it."""
+    flat = [st for steps in hists for st in steps]
+    outs = iter(ctx.oracle.run_parallel([_request(st) for st in flat]))
+    for steps in hists:
+        truths = [canon_model(next(outs)) for _ in steps]
+        broken = False
+        for t, (c, truth) in enumerate(zip(steps, truths)):
+            g = call_impl(lambda: nn.kdtree(list(c['seqs']), **_kwargs(c)))
+            nt = bool(truth) and t > 0
+            ctx.count('history step mode=' + c['mode'])
+            ctx.count('history step n_cpu=1' if c['ncpu'] == 1 else 'history step n_cpu>1')
+            desc = _desc(c)
+            ctx.case(sample=dict(desc, history_step=t) if nt else None,
+                     nontrivial_key=('history', t) + tuple(sorted((k_, str(v)) for k_, v in desc.items())) if nt else None)
+            bad = judge(c, g, truth)
+            if bad and not broken:
+                broken = True                                  # later steps of a broken history are not independent evidence
+                before = [_desc(x) for x in steps[:t]]
+                ctx.violation('property', 'call %d of a history of kdtree calls in one process (earlier calls: %s): %s' %
+                              (t + 1, '; '.join('%s%s n_cpu=%d' % (b['mode'], '' if b['custom'] is None else '[' + b['custom'] + ']',
+                                                                     b['n_cpu']) for b in before) or 'none', bad[1]),
+                              dict(desc, history=before + [desc]), site=bad[0])
+
+
 def run(ctx):
     import pyrepseq.nn as nn
     rng = ctx.rng
     ctx.rule = ('kdtree on amino-acid lists of size 1..40 x n_cpu in 1..16 (every ratio incl. n_cpu > len(seqs), non-dividing chunk '
                 'sizes; real Pool processes) x compression 1..25 x max_returns in {None,1,2,3,7} x mode {default, hamming, custom}; '
                 'every result compared with the model (= single-process uncompressed semantics) and, for max_returns, with the '
-                'top-m contract. non-trivial := n_cpu > 1 or compression > 1 or max_returns given, and the expected result is non-empty')
+                'top-m contract; plus call HISTORIES (3-6 consecutive kdtree calls in one process on the same / overlapping sequences with different '
+                'custom distance callables, max_custom_distance, modes, n_cpu = 1 first and then 1 or > 1), every call compared with the '
+                'model for its own parameters. non-trivial := (n_cpu > 1 or compression > 1 or max_returns given, or the call is a later '
+                'step of a history) and the expected result is non-empty')
     cases = []
     sizes = list(range(1, 13)) + [16, 17, 23, 31, 40]
     ncase = 70 if ctx.quick else 2500
@@ -70,47 +190,20 @@ def run(ctx):
         rng.shuffle(seqs)
         for comp in (1, rng.choice([2, 3, 5, 7, 19, 20])):
             cases.append(dict(n=len(seqs), ncpu=rng.choice([1, 2]), mode='default', seqs=list(seqs), comp=comp, mr=None, k=k, which=0, maxc=None))
-    reqs = []
-    for c in cases:
-        if c['mode'] == 'default':
-            reqs.append(('api_brute_self_lev', [c['k'], c['seqs']]))
-        elif c['mode'] == 'hamming':
-            reqs.append(('api_brute_self_ham', [c['k'], c['seqs']]))
-        else:
-            reqs.append(('api_brute_self_custom', [c['which'], c['k'], None if c['maxc'] is None else Fraction(c['maxc']), c['seqs']]))
-    outs = ctx.oracle.run_parallel(reqs)
+    outs = ctx.oracle.run_parallel([_request(c) for c in cases])
     exact_same = 0
     for c, exp in zip(cases, outs):
         truth = canon_model(exp)
-        kw = dict(max_edits=c['k'], n_cpu=c['ncpu'], compression=c['comp'], max_returns=c['mr'])
-        if c['mode'] == 'hamming':
-            kw['custom_distance'] = 'hamming'
-        elif c['mode'] == 'custom':
-            kw['custom_distance'] = customs.make(c['which'])
-            kw['max_custom_distance'] = float('inf') if c['maxc'] is None else c['maxc']
-        g = call_impl(lambda: nn.kdtree(list(c['seqs']), **kw))
+        g = call_impl(lambda: nn.kdtree(list(c['seqs']), **_kwargs(c)))
         nt = bool(truth) and (c['ncpu'] > 1 or c['comp'] > 1 or c['mr'] is not None)
         ctx.count('n_cpu>len' if c['ncpu'] > c['n'] else ('n_cpu=1' if c['ncpu'] == 1 else 'n_cpu>1'))
         ctx.count('mode=' + c['mode'])
         ctx.count('max_returns=%s' % c['mr'])
-        desc = dict(seqs=c['seqs'], n_cpu=c['ncpu'], compression=c['comp'], max_returns=c['mr'], max_edits=c['k'], mode=c['mode'],
-                    custom=customs.NAMES[c['which']] if c['mode'] == 'custom' else None, max_custom_distance=c['maxc'])
+        desc = _desc(c)
         ctx.case(sample=desc if nt else None, nontrivial_key=tuple(sorted((k_, str(v)) for k_, v in desc.items())) if nt else None)
-        if g[0] != 'ok':
-            ctx.violation('property', 'kdtree(%d sequences, n_cpu=%d, compression=%d, max_returns=%s, %s) raised %s' %
-                          (c['n'], c['ncpu'], c['comp'], c['mr'], c['mode'], g[1]), desc,
-                          site='nn.kdtree[n_cpu>len]' if c['ncpu'] > c['n'] else 'nn.kdtree[config]')
-            continue
-        got = canon_triplets(g[1])
-        if c['mr'] is None:
-            if got != truth:
-                ctx.violation('property', 'kdtree result depends on configuration: n_cpu=%d compression=%d mode=%s on %s: %s' %
-                              (c['ncpu'], c['comp'], c['mode'], c['seqs'], gens.diff_triplets(got, truth)), desc, site='nn.kdtree[config]')
-        else:
-            why = topm_ok(got, truth, c['mr'])
-            if why:
-                ctx.violation('property', 'max_returns=%d contract broken (%s) on %s' % (c['mr'], why, c['seqs']), desc,
-                              site='nn.kdtree[max_returns]')
+        bad = judge(c, g, truth)
+        if bad:
+            ctx.violation('property', bad[1], desc, site=bad[0])
     # model cross-check of top-m / stable order through the algorithm-mirroring model (auxiliary statistics + vm_compute)
     small = []
     for t in range(12 if ctx.quick else 80):
@@ -129,18 +222,26 @@ def run(ctx):
                           site='nn.kdtree[config]')
     ctx.extra['aux_identical_order_with_model'] = dict(cases=len(small), identical=exact_same,
                                                        note='exact list order incl. tie order; auxiliary, never decides')
+    # call histories: state left behind by one call (parameter block, pools, caches) must not reach the next one
+    run_histories(ctx, nn, histories(rng, 8 if ctx.quick else 150))
     ctx.assumptions += ['multiprocessing.Pool.map returns results in task order for any chunksize >= 1 (modelled contract)',
                         'fork start method: workers inherit the module-level parameter block',
                         'which OS interleaving occurs is not controlled; the theorem covers every schedule of the modelled pool']
 
 
 def replay(ctx, obj):
+    """Re-runs the stored call (or, for a history, the stored calls in order, in this one process) and compares each with the model."""
     import pyrepseq.nn as nn
     r = obj['replay']
-    kw = dict(max_edits=r['max_edits'], n_cpu=r['n_cpu'], compression=r['compression'], max_returns=r['max_returns'])
-    if r['mode'] == 'hamming':
-        kw['custom_distance'] = 'hamming'
-    g = call_impl(lambda: nn.kdtree(list(r['seqs']), **kw))
-    ctx.case(sample=r)
-    if g[0] != 'ok':
-        ctx.violation('property', 'replay still raises %s' % (g[1],), r)
+    steps = [_undesc(x) for x in r['history']] if r.get('history') else [_undesc(r)]
+    for st in steps:
+        if st['mode'] == 'custom' and st['which'] is None:
+            st['mode'], st['maxc'] = 'default', None           # replay files written before the distance index was recorded
+    outs = ctx.oracle.run([_request(st) for st in steps])
+    for t, (c, exp) in enumerate(zip(steps, outs)):
+        g = call_impl(lambda: nn.kdtree(list(c['seqs']), **_kwargs(c)))
+        ctx.case(sample=_desc(c))
+        bad = judge(c, g, canon_model(exp))
+        if bad:
+            ctx.violation('property', 'replay, call %d of %d: %s' % (t + 1, len(steps), bad[1]), r, site=bad[0])
+            break
